@@ -224,8 +224,8 @@ static int in_class(err_t rc, const err_t* exp, int n)
 static void run_badarg(const fc_desc* d, unsigned di, uint64_t seed, const sk_mask* mask, sk_result* out)
 {
 	uint64_t fill = sk_mix(seed, 1), ps = sk_mix(seed, 2), ss = sk_mix(seed, 3);
-	int j, nsingle = 0, e = 0, pair;
-	err_t exp[8], rc;
+	int j, nsingle = 0, nown = 0, e = 0, pair;
+	err_t exp[12], rc;
 	char cls[96];
 	sk_rng pr;
 	if (!d->bad)
@@ -247,6 +247,9 @@ static void run_badarg(const fc_desc* d, unsigned di, uint64_t seed, const sk_ma
 		if (nsingle > 60)
 			break;
 	}
+	nown = nsingle;
+	if (d->flags & FC_RNGARG)
+		++nsingle;   /* the engine's own variant: a null generator */
 	for (pair = 0; pair < 2; ++pair)
 	{
 		int cnt = pair ? (nsingle > 1 ? 3 : 0) : nsingle;
@@ -263,9 +266,17 @@ static void run_badarg(const fc_desc* d, unsigned di, uint64_t seed, const sk_ma
 			sk_heap_reset(fill);
 			ctx_init(ps, ss);
 			d->gen(&C);
-			n1 = d->bad(&C, j1, exp);
+			if (j1 == nown)
+				C.no_rng = 1, exp[0] = ERR_BAD_RNG, exp[1] = ERR_BAD_ANG, n1 = 2;   /* bels calls its generator of candidates "ang" */
+			else
+				n1 = d->bad(&C, j1, exp);
 			if (j2 >= 0 && j2 != j1)
-				n2 = d->bad(&C, j2, exp + n1);
+			{
+				if (j2 == nown)
+					C.no_rng = 1, exp[n1] = ERR_BAD_RNG, exp[n1 + 1] = ERR_BAD_ANG, n2 = 2;
+				else
+					n2 = d->bad(&C, j2, exp + n1);
+			}
 			sk_text(out, "  about to call with invalid variant %d (second %d)", j1, j2);
 			rc = do_call(d);
 			sk_text(out, "  invalid variant %d%s%.0d -> rc=%u", j1, j2 >= 0 ? "+" : "", j2 >= 0 ? j2 : 0, (unsigned)rc);
